@@ -43,6 +43,9 @@ type c06Case struct {
 	Terminals []convTerminal `json:"terminals"`
 	Handlers  string         `json:"handlers"`
 	HoldUs    int            `json:"read_hold_us"`
+	// Prelude: bytes an earlier connection of another terminal sent before it hung up (may end inside a frame or inside a
+	// transfer); the conversations start after it has gone
+	Prelude kit.Hex `json:"earlier_connection_sent,omitempty"`
 }
 
 func genConv(t *rapid.T, id identity, maxReqs int, allowTransfer bool, label string) convTerminal {
@@ -96,6 +99,12 @@ func genIdentity(t *rapid.T, i int, label string) identity {
 func genC06(t *rapid.T) c06Case {
 	c := c06Case{Handlers: rapid.SampledFrom([]string{"", "", "parse_all"}).Draw(t, "handlers"), HoldUs: rapid.SampledFrom([]int{0, 1000, 1000}).Draw(t, "hold")}
 	n := rapid.IntRange(1, 4).Draw(t, "terminals")
+	if rapid.IntRange(0, 3).Draw(t, "prelude") == 0 {
+		// another terminal said hello, began a transfer and hung up in the middle of its second packet
+		pid := identity{Digits: "13800139999", V2019: rapid.Bool().Draw(t, "prelude_v2019")}
+		p2 := fragFrame(pid, 0x0801, 78, 3, 2, make([]byte, 40))
+		c.Prelude = append(append(frame(pid, 0x0002, 76, nil), fragFrame(pid, 0x0801, 77, 3, 1, make([]byte, 40))...), p2[:rapid.IntRange(1, len(p2)-1).Draw(t, "prelude_keep")]...)
+	}
 	for i := 0; i < n; i++ {
 		c.Terminals = append(c.Terminals, genConv(t, genIdentity(t, i, fmt.Sprintf("id%d", i)), 14, true, fmt.Sprintf("t%d", i)))
 	}
@@ -328,7 +337,15 @@ func checkC06(c c06Case, _ *kit.Collector) kit.Result {
 	sc := Scenario{Handlers: c.Handlers, ReadHoldUs: c.HoldUs}
 	for i, t := range c.Terminals {
 		steps, _ := convSteps(t, true)
+		if len(c.Prelude) > 0 {
+			steps = append([]Step{{Op: "barrier", Barrier: "prelude_done", Parties: len(c.Terminals) + 1}}, steps...)
+		}
 		sc.Actors = append(sc.Actors, Actor{Name: fmt.Sprintf("t%d", i), Kind: "terminal", Steps: steps})
+	}
+	if len(c.Prelude) > 0 {
+		res.Labels = append(res.Labels, "after_a_connection_that_ended_mid_frame")
+		sc.Actors = append(sc.Actors, Actor{Name: "earlier", Kind: "terminal", Steps: []Step{{Op: "dial"}, {Op: "write", Hex: c.Prelude}, {Op: "wait_frames", N: 1, DeadlineMs: 3000},
+			{Op: "close", Mode: "fin"}, {Op: "pause", PauseUs: 30000}, {Op: "barrier", Barrier: "prelude_done", Parties: len(c.Terminals) + 1}}})
 	}
 	h := runScenario(sc)
 	if !childVerdict(h, &res) {
